@@ -33,14 +33,219 @@ def values(rng, w, n):
     return [float(v) for v in out]
 
 
+# ------------------------------------------------------------------------------ narrow value carriers entering N-d histograms
+# N-d adaptive histograms that ALREADY have bins receive fill_n batches (fill points) carried by float32 / float16 / narrow
+# integer arrays; one row holds, on one axis, a number of that type lying just below / just above (or on) an existing outer
+# edge k*w + shift -- which is a double, usually not representable in the narrow type. The value entered is the exact value
+# of the narrow number (every number of these types is a double), so the exact oracle and the model know its cell.
+NARROW_WIDTHS = [0.1, 0.1, 0.1, 0.2, 0.3, 0.3, 0.7, 0.7, 0.05, 0.6, 1 / 3, 1e-3, 2.5]
+INT_WIDTHS = [0.1, 0.2, 0.25, 0.5, 1.0, 1 / 3]          # integers are (nearly) edges of these grids
+FLOAT_KINDS = ["float32"] * 6 + ["float16"] * 2
+INT_KINDS = ["int8", "int16", "uint8", "int32"]
+TRANSFORMED = {2: ["PolarHistogram"], 3: ["CylindricalHistogram", "SphericalHistogram"]}
+ENABLE_ND_NARROW = True
+
+
+def to_kind(x: float, vk: str) -> float:
+    """x rounded to the nearest number of the numpy type vk, as a double"""
+    return float(np.dtype(vk).type(x))
+
+
+def beside(e: float, vk: str, above: bool) -> float:
+    """the largest number of type vk below the double e (above=False) / the smallest one that is >= e, i.e. on the edge when
+    the edge is a number of that type, else just above it (above=True)"""
+    t = np.dtype(vk).type
+    if np.dtype(vk).kind in "iu":
+        import math
+        n = math.ceil(e)
+        return float(n if above else n - 1)
+    x = t(e)
+    if float(x) < e:
+        lo, hi = x, np.nextafter(x, t(np.inf))
+    else:
+        lo, hi = np.nextafter(x, t(-np.inf)), x
+    return float(hi if above else lo)
+
+
+def narrow_params(rng):
+    """the random choices of one case of the stream (plain JSON; narrow_case builds the case from them without the rng)"""
+    d = rng.choice([2, 2, 3])
+    integer = rng.random() < 0.15
+    vk = rng.choice(INT_KINDS if integer else FLOAT_KINDS)
+    klass = None
+    r = rng.random()
+    if r < 0.12:
+        klass = rng.choice(TRANSFORMED[d])
+    elif r < 0.3 and d == 2:
+        klass = "HistogramND"
+    ws, shifts, ks, ms = [], [], [], []
+    for _ in range(d):
+        if integer:
+            # cells from the one starting at (about) the integer n to the one after n + 1: n sits on / just below the first
+            # edge, n + 1 is inside
+            w = rng.choice(INT_WIDTHS if d == 2 else INT_WIDTHS[2:])
+            n = rng.randint(2 if vk == "uint8" else -6, 6)
+            ws.append(w); shifts.append(0.0)
+            ks.append(round(n / w)); ms.append(round((n + 1) / w) + 1 - round(n / w))
+        else:
+            w = rng.choice(NARROW_WIDTHS)
+            ws.append(w); shifts.append(0.0 if rng.random() < 0.75 else rng.choice([0.5, 0.25]) * w)
+            ks.append(rng.choice([-1, 1]) * rng.randint(1, 40) if rng.random() < 0.85 else 0)
+            ms.append(rng.randint(1, 3 if d == 2 else 2))
+    n = rng.choice([1, 2, 2, 3, 4])
+    mode = "single" if n == 1 else rng.choice(["fits", "fits", "fits", "other_side", "other_side", "other_axes"])
+    return {"d": d, "vk": vk, "klass": klass, "ws": ws, "shifts": shifts, "ks": ks, "ms": ms,
+            "axis": rng.randrange(d), "side": rng.choice(["low", "low", "high"]), "near": rng.choice(["below", "above"]),
+            "n": n, "pos": rng.randrange(n), "mode": mode, "gap": rng.randint(0, 2), "other_dir": rng.choice([-1, 1]),
+            "probe": "fill_n" if n > 1 or rng.random() < 0.6 else "fill",
+            "vform": rng.choice(["array", "scalars"]),
+            "layout": rng.choice(["", "", "", "F", "readonly", "F,readonly", "strided"]),
+            "weights": rng.choice([None, None, None, "float64", "float32", "float32"]),
+            "wvals": [rng.choice([1, 2, 0.5, 0.25]) for _ in range(4)],
+            "pre": "fill_n64" if integer else rng.choice(["fill_n64", "fill_n64", "fill_nvk", "fills64", "fillsvk"]),
+            "also": [[j, rng.choice(["low", "high"]), rng.choice(["below", "above"])] for j in range(d) if rng.random() < 0.15],
+            "again": rng.random() < 0.3, "far": rng.choice([None, None, -1, 1]), "picks": [rng.randrange(6) for _ in range(16)]}
+
+
+def narrow_case(par):
+    import math
+    from . import nd_parts
+    d, vk, ws, shifts, a = par["d"], par["vk"], par["ws"], par["shifts"], par["axis"]
+    integer = np.dtype(vk).kind in "iu"
+    edge = lambda j, k: k * ws[j] + shifts[j]                  # as the library computes its edges (doubles)
+    lo = list(par["ks"])                                        # cells lo[j] .. hi[j]-1 exist on axis j
+    hi = [k + m for k, m in zip(par["ks"], par["ms"])]
+    mid = lambda j, k: (k + 0.5) * ws[j] + shifts[j]
+
+    def beyond(j, k):
+        """a number of type vk in cell k of axis j (k outside the cells that exist; integer types: in or beyond that cell)"""
+        if not integer:
+            return to_kind(mid(j, k), vk)
+        return float(math.ceil(edge(j, k)) if k >= hi[j] else math.ceil(edge(j, k + 1)) - 1)
+    # numbers well inside every cell (prefill) / numbers of type vk that fit into the cells
+    if integer:
+        pre_pools = [[mid(j, k) for k in range(lo[j], hi[j])] for j in range(d)]
+        fit_pools = [[float(math.ceil(edge(j, hi[j] - 2)))] for j in range(d)]          # the integer n + 1
+    else:
+        pre_pools = fit_pools = [[to_kind(mid(j, k), vk) for k in range(lo[j], hi[j])] for j in range(d)]
+    picks = list(par["picks"])
+
+    def pick(j):
+        picks.append(picks.pop(0))
+        return fit_pools[j][picks[-1] % len(fit_pools[j])]
+    tr = {"transformed": True} if par["klass"] in sum(TRANSFORMED.values(), []) else {}
+    steps = []
+    # 1. the bins: every cell of the ranges is hit once
+    rows = [[pre_pools[j][i % len(pre_pools[j])] for j in range(d)] for i in range(max(len(p) for p in pre_pools))]
+    enc = lambda r: [rs(x) for x in r]
+    pvk = {"vk": vk} if par["pre"].endswith("vk") else {}
+    if par["pre"].startswith("fill_n"):
+        steps.append({"t": "fill_n", "rows": [enc(r) for r in rows], "ws": None, **pvk, **tr})
+    else:
+        steps += [{"t": "fill", "v": enc(r), "w": "1", **pvk, **tr} for r in rows]
+
+    def put(batch, i, j, x):
+        if not integer or np.iinfo(vk).min <= x <= np.iinfo(vk).max:     # (an unsigned type has nothing below zero)
+            batch[i][j] = x
+
+    def probe(side, near, n, pos, mode):
+        e = edge(a, lo[a] if side == "low" else hi[a])
+        batch = [[pick(j) for j in range(d)] for _ in range(n)]
+        put(batch, pos, a, beside(e, vk, near == "above"))
+        for j, sd, nr in par["also"]:                           # near-edge coordinates on other axes in the same row
+            if j != a:
+                put(batch, pos, j, beside(edge(j, lo[j] if sd == "low" else hi[j]), vk, nr == "above"))
+        if mode in ("other_side", "other_axes") and n > 1:
+            j = a if mode == "other_side" else (a + 1) % d
+            dirn = (1 if side == "low" else -1) if mode == "other_side" else par["other_dir"]
+            put(batch, (pos + 1) % n, j, beyond(j, hi[j] + par["gap"] if dirn > 0 else lo[j] - 1 - par["gap"]))
+        wk = par["weights"]
+        if par["probe"] == "fill" and n == 1:
+            w = par["wvals"][0] if wk else 1
+            steps.append({"t": "fill", "v": enc(batch[0]), "w": rs(w), "vk": vk, "vform": par["vform"],
+                          "wk": ("float32" if wk == "float32" else "pyfloat") if wk else "pyint", **tr})
+        else:
+            steps.append({"t": "fill_n", "rows": [enc(r) for r in batch], "vk": vk, "layout": par["layout"],
+                          "ws": [rs(par["wvals"][i % 4]) for i in range(n)] if wk else None, "wkind": wk, **tr})
+        for r in batch:                                         # the cells needed now (exact comparisons of doubles)
+            for j, v in enumerate(r):
+                while v < edge(j, lo[j]):
+                    lo[j] -= 1
+                while v >= edge(j, hi[j]):
+                    hi[j] += 1
+    probe(par["side"], par["near"], par["n"], par["pos"], par["mode"])
+    if par["far"] is not None:                                  # a double far on one side of that axis
+        k = hi[a] + 3 if par["far"] > 0 else lo[a] - 4
+        v = [pick(j) for j in range(d)]
+        v[a] = mid(a, k)
+        steps.append({"t": "fill", "v": enc(v), "w": "1", **tr})
+        lo[a], hi[a] = min(lo[a], k), max(hi[a], k + 1)
+    if par["again"]:                                            # the same probe at the outer edge as it is now
+        probe(par["side"], par["near"], par["n"], par["pos"], "fits" if par["n"] > 1 else "single")
+    axes = [gen1.fixed_json(w, 0, 0, shift=sh, adaptive=True, align=True) for w, sh in zip(ws, shifts)]
+    tags = ["stream:nd_narrow_enumerated" if par.get("enumerated") else "stream:nd_narrow", "vk:" + vk,
+            "probe:" + ("fill" if par["probe"] == "fill" and par["n"] == 1 else "fill_n"), f"near:{par['side']}_{par['near']}",
+            "mode:" + par["mode"], f"probe_axis:{a}", "class:" + (par["klass"] or "default")]
+    if par["layout"] and tags[2] == "probe:fill_n":
+        tags.append("layout:" + par["layout"])
+    if par["weights"]:
+        tags.append("weights:" + par["weights"])
+    src = {"axes": axes, "steps": steps, "ws": [rs(w) for w in ws], "share": False, "klass": par["klass"],
+           "grid": [[rs(w), rs(sh)] for w, sh in zip(ws, shifts)], "tags": tags, "narrow": par}
+    return nd_parts.c04_build(src)
+
+
+def narrow_neighbours(par):
+    """the same situation with the near-edge value on the other side of the edge / at the other end / on every axis /
+    in the other narrow types / as a fill_n batch of two rows that fit"""
+    out = []
+    for side in ("low", "high"):
+        for near in ("below", "above"):
+            for a in range(par["d"]):
+                for vk in ("float32", "float16") if np.dtype(par["vk"]).kind == "f" else (par["vk"],):
+                    p = copy.deepcopy(par)
+                    p.update(side=side, near=near, axis=a, vk=vk, probe="fill_n", n=2, pos=0, mode="fits", enumerated=False)
+                    out.append(narrow_case(p))
+    return out
+
+
+def narrow_exhaustive(tier):
+    """width x edge index (both signs) x end x side of the edge x dimension x axis position x type, two-row batches that fit
+    (and fill points in the thorough tier)"""
+    wide = tier == "thorough"
+    for w in ([0.1, 0.3, 0.7] + ([0.2, 0.05] if wide else [])):
+        for k in ([-19, -7, 7, 19] + ([-13, -3, 3, 13] if wide else [])):
+            for side in ("low", "high"):
+                for near in ("below", "above"):
+                    for d in (2, 3):
+                        for a in range(d):
+                            for vk in (("float32", "float16") if wide else ("float32",)):
+                                for n, probe in (((2, "fill_n"), (1, "fill")) if wide else ((2, "fill_n"),)):
+                                    ks = [3 + j for j in range(d)]
+                                    ks[a] = k if side == "low" else k - 2
+                                    ms = [1] * d
+                                    ms[a] = 2
+                                    yield narrow_case({
+                                        "d": d, "vk": vk, "klass": None, "ws": [w] * d, "shifts": [0.0] * d, "ks": ks, "ms": ms,
+                                        "axis": a, "side": side, "near": near, "n": n, "pos": n - 1,
+                                        "mode": "fits" if n > 1 else "single", "gap": 0, "other_dir": 1, "probe": probe,
+                                        "vform": "array", "layout": "", "weights": None, "wvals": [1, 1, 1, 1], "pre": "fill_n64",
+                                        "also": [], "again": False, "far": None, "picks": [0, 1, 2, 3], "enumerated": True})
+
+
 class C04(Hist1Prop):
     ID = "C04"
-    N_QUICK = 250
+    N_QUICK = 290
     N_THOROUGH = 10000
     RULE = ("histories of fill / fill_n (empty batches, NaNs, weights) on adaptive fixed-width 1-D histograms started empty "
             "(bin_shift / align options) or pre-filled; widths {1,10,.5,.25,.1,.3,.7,1/3,2.5,1e-3,1e3,.05}; values = decimal "
             "literals, exact multiples of the width, one-ulp neighbours of multiples, far values, duplicates; a find_bin for "
             "every entered value at the end; plus the non-adaptive fixed_width / integer / pretty factories on the same data. "
+            "stream:nd_narrow (one case in eight, and an enumerated sub-space): 2-D / 3-D (Histogram2D, HistogramND, polar / "
+            "cylindrical / spherical with transformed=True) adaptive histograms that already have bins, then fill_n batches / "
+            "fill points carried by float32 / float16 / int8..int32 arrays (C- / F-ordered, strided, read-only; float32 weights) "
+            "in which one row holds, on one axis, the number of that type just below / just above an outer edge k*w+shift, the "
+            "rest fitting or growing the other side / another axis. "
             "non-trivial = the bins grew at least twice; distinct = hash of the op list")
     FIELDS = {"bins", "freq", "err2", "under", "over", "total", "keep", "binning"}
     EXTRA_TRUST = ["grid edges and cell estimates are floating-point computations: the theorems hold for every FloatOps "
@@ -48,6 +253,9 @@ class C04(Hist1Prop):
                    "implementation's own edges"]
 
     def gen_case(self, rng, k, tier):
+        if ENABLE_ND_NARROW and k % 8 == 7:
+            # one case in eight (chosen by the case number, so that the older streams keep the cases they had)
+            return narrow_case(narrow_params(rng))
         if rng.random() < 0.3:
             from . import nd_parts
             return nd_parts.c04_gen(rng)
@@ -130,6 +338,19 @@ class C04(Hist1Prop):
             if src.get("vk"):
                 ops[-1]["vk"] = src["vk"]
         return {"kind": "hist1", "fuel": 64, "ops": ops, "tags": [], "src": src}
+
+    def model_case(self, case, io):
+        if case.get("kind") == "histn" and case["src"].get("klass") not in (None, "HistogramND"):
+            return None         # the driver has no transformed classes in its op language: oracle only
+        return case
+
+    def neighbours(self, case):
+        if case.get("kind") == "histn" and case["src"].get("narrow"):
+            return narrow_neighbours(case["src"]["narrow"])
+        return []
+
+    def exhaustive_cases(self, tier):
+        return list(narrow_exhaustive(tier)) if ENABLE_ND_NARROW else []
 
     def shrink_candidates(self, case):
         if case.get("kind") == "histn":
